@@ -57,6 +57,36 @@ impl Write for SharedSink {
         self.data.borrow_mut().extend_from_slice(&buf[..n]);
         Ok(n)
     }
+    /// a destination with its own gather write (socket, pipe): the schedule limits what ONE call accepts, across slices
+    fn write_vectored(&mut self, bufs: &[io::IoSlice<'_>]) -> io::Result<usize> {
+        *self.calls.borrow_mut() += 1;
+        let total: usize = bufs.iter().map(|b| b.len()).sum();
+        let mut sch = self.schedule.borrow_mut();
+        let n = if sch.0.is_empty() {
+            total
+        } else {
+            let i = sch.1 % sch.0.len();
+            let k = sch.0[i];
+            sch.1 += 1;
+            if k == 0 {
+                return Err(io::Error::new(io::ErrorKind::Interrupted, "interrupted"));
+            }
+            if k < 0 {
+                return Err(io::Error::other("sink failure"));
+            }
+            (k as usize).min(total)
+        };
+        let mut left = n;
+        for b in bufs {
+            let t = left.min(b.len());
+            self.data.borrow_mut().extend_from_slice(&b[..t]);
+            left -= t;
+            if left == 0 {
+                break;
+            }
+        }
+        Ok(n)
+    }
     fn flush(&mut self) -> io::Result<()> {
         Ok(())
     }
